@@ -1,67 +1,77 @@
-(* C07 - property theorems: the rotating log file of the file channel. *)
+(* C07 - property theorems: the rotating log file of the file channel (repaired code:
+   /repo commits 4ee059b and f21e33c). *)
 From HT Require Import Common.Bytes C07.Model C07.Check C07.Proofs.
 Open Scope Z_scope.
 
-(* The full statement, kept visible.  It does NOT hold of the unchanged code (refuted below). *)
+(* The full statement, kept visible: the lines part holds (C07_lines_kept below); the Send part
+   does not hold of the code (destination cannot be opened => Send blocks; recorded finding). *)
 Definition C07_full : Prop := full_lines /\ full_send.
 
-(* Write never panics, never loops for ever, reports len(p) and keeps pos = size <= max,
-   for every state the writer can be in (file present or removed/renamed by somebody else) *)
+(* Write never panics, never loops for ever, reports len(p) and keeps pos = size,
+   for every state the writer can be in (file present or removed/renamed by somebody else),
+   every maximum size and every clock *)
 Theorem C07_write_total : forall clk st p,
   rinv st -> exists st', rf_write clk st p = WOk st' (zlen p) /\ rinv st' /\ rf_max st' = rf_max st.
 Proof. exact write_total. Qed.
 
-(* the same for whole histories of writes, outside removals/renames and restarts, all clocks *)
+(* the same for whole histories of writes, outside removals/renames and restarts *)
 Theorem C07_history_total : forall max s init ops,
-  0 <= max -> exists st, run (rf_open max s init) [] ops = Some (st, written_lens ops) /\ rinv st.
+  exists st, run (rf_open max s init) [] ops = Some (st, written_lens ops) /\ rinv st.
 Proof. exact history_total. Qed.
 
-(* no file ever exceeds the maximum size (unconditionally - oversize lines are cut instead, see below) *)
+(* a file - active, rotated, renamed away or removed - exceeds the maximum size only if it is a
+   single line (no newline inside) that is itself larger; for all histories *)
 Theorem C07_size_bound : forall max s init ops st rets,
-  0 <= max -> zlen init <= max ->
+  fits max init ->
   run (rf_open max s init) [] ops = Some (st, rets) ->
-  zlen (rf_cur st) <= max /\
-  (forall x, In x (rf_rot st) -> zlen (snd x) <= max) /\
-  Forall (fun c => zlen c <= max) (rf_moved st) /\
-  Forall (fun c => zlen c <= max) (rf_gone st).
+  fits max (rf_cur st) /\
+  (forall x, In x (rf_rot st) -> fits max (snd x)) /\
+  Forall (fits max) (rf_moved st) /\
+  Forall (fits max) (rf_gone st).
 Proof. exact size_bound. Qed.
 
-(* one Write: its bytes are, in order, in the files it rotated away and the active file, except
-   exactly one skipped byte per rotation; the i-th rotation is stamped with the i-th clock reading *)
+(* one Write: its bytes are, in order, in the files it rotated away and the active file; the
+   only bytes not in a file are newlines ending the last line of a rotated file; the i-th rotation
+   is stamped with the i-th clock reading; no name in the directory is used twice *)
 Theorem C07_write_accounts : forall clk st p,
   rinv st ->
   exists st' hs, rf_write clk st p = WOk st' (zlen p) /\
     rf_hist st' = rf_hist st ++ hs /\
+    rf_rot st' = rf_rot st ++ hist_files hs /\
     hist_stream hs ++ rf_cur st' = rf_cur st ++ p /\
-    Forall (fun e => zlen (h_content e) <= rf_max st /\
-                     (h_kind e = RSplit /\ h_skipped e = [NL] \/ h_kind e = RDrop /\ exists x, h_skipped e = [x])) hs /\
-    map h_sec hs = map clk (seq 0 (length hs)).
+    Forall (fun e => h_skipped e = [NL] \/ (h_skipped e = [] /\ h_kind e = RFresh)) hs /\
+    map h_sec hs = map clk (seq 0 (length hs)) /\
+    (NoDup (map fst (rf_rot st)) -> NoDup (map fst (rf_rot st'))).
 Proof. exact write_accounts. Qed.
 
-(* whole histories without outside interference: rotated contents (in rotation order, with the
-   skipped bytes) followed by the active file = what was there ++ everything written *)
+(* all histories: every file that ever was at <path> (oldest first, with the newline skipped at
+   its rotation) followed by the active file = what was there ++ everything written *)
 Theorem C07_bytes_accounted : forall max s init ops st rets,
-  0 <= max -> no_ext ops = true ->
   run (rf_open max s init) [] ops = Some (st, rets) ->
   hist_stream (rf_hist st) ++ rf_cur st = init ++ written_of ops.
 Proof. exact bytes_accounted. Qed.
 
-(* pairwise distinct rotation seconds: the directory holds every file ever rotated, unreplaced *)
-Theorem C07_rotated_never_replaced : forall max s init ops st rets,
-  0 <= max -> run (rf_open max s init) [] ops = Some (st, rets) ->
-  secs_distinct (rf_hist st) = true -> rf_rot st = hist_files (rf_hist st).
-Proof. exact rotated_never_replaced. Qed.
+(* rotate() always finds a name that does not exist yet *)
+Theorem C07_rotated_name_is_fresh : forall s d, ~ In (s, free_k s d) (map fst d).
+Proof. exact free_k_fresh. Qed.
 
-(* outside the two finding classes the full conclusion holds: the rotated files in rotation order
-   followed by the active file hold exactly the lines written - each once, in order, none cut *)
-Theorem C07_outside_findings : forall max s init ops st rets,
-  0 <= max -> no_ext ops = true ->
+(* ALL histories (writes with any batching, any clock, outside removals and renames of the log
+   file, restarts): the files that left <path>, oldest first, followed by the active file hold
+   exactly the lines written - each once, in order, none cut; the directory of rotated files, the
+   files renamed away and the files removed are exactly the corresponding entries of that history,
+   and no rotated name was used twice (nothing was replaced) *)
+Theorem C07_lines_kept_all_histories : forall max s init ops st rets,
   aligned_b init = true -> writes_aligned ops = true -> no_blank_b (init ++ written_of ops) = true ->
   run (rf_open max s init) [] ops = Some (st, rets) ->
-  has_drop (rf_hist st) = false -> secs_distinct (rf_hist st) = true ->
-  rf_rot st = hist_files (rf_hist st) /\
-  flat_map lines_of (map snd (rf_rot st)) ++ lines_of (rf_cur st) = lines_of (init ++ written_of ops).
-Proof. exact lines_kept. Qed.
+  hist_lines (rf_hist st) ++ lines_of (rf_cur st) = lines_of (init ++ written_of ops) /\
+  rf_rot st = hist_rot (rf_hist st) /\ rf_moved st = hist_moved (rf_hist st) /\
+  rf_gone st = hist_gone (rf_hist st) /\ NoDup (map fst (rf_rot st)).
+Proof. exact lines_kept_all. Qed.
+
+(* nobody removed or renamed the log file: the rotated files in rotation order followed by the
+   active file hold exactly the lines written; no hypothesis on windows or clocks (= full_lines) *)
+Theorem C07_lines_kept : full_lines.
+Proof. exact full_lines_holds. Qed.
 
 (* the structural window split of the model is the index loop of the Go code *)
 Theorem C07_scan_is_index_loop : forall p j,
@@ -74,66 +84,65 @@ Proof. exact scan_down_spec. Qed.
 
 (* Send returns for every sequence of requests and idle seconds when the destination could be opened *)
 Theorem C07_send_returns_when_openable : forall max s init es,
-  0 <= max -> exists w, wl_run (wl_new max true s init) es = Some w /\ wl_blocked w = false.
+  exists w, wl_run (wl_new max true s init) es = Some w /\ wl_blocked w = false.
 Proof. exact wl_openable_never_blocks. Qed.
 
-(* ---- the unchanged code falls short in three ways ---- *)
-
-(* (a) no newline inside the remaining window: the first byte of the line is dropped
-   (max 1024, a 1000-byte line then a 100-byte line; the rotation seconds are distinct) *)
-Theorem C07_first_byte_dropped_refuted :
-  exists st rets, run (rf_open 1024 0 []) [] wit_a = Some (st, rets) /\
-    no_ext wit_a = true /\ writes_aligned wit_a = true /\ no_blank_b (written_of wit_a) = true /\
-    secs_distinct (rf_hist st) = true /\ has_drop (rf_hist st) = true /\
-    rf_cur st = tl (mkline 98 97) /\
-    files_lines st <> lines_of (written_of wit_a).
-Proof. exact wit_a_result. Qed.
-
-(* (b) two rotations read the same second: the earlier rotated file is replaced
-   (max 1024, one batch of 25 lines of 100 bytes; every rotation found its newline) *)
-Theorem C07_overwrite_refuted :
-  exists st rets, run (rf_open 1024 0 []) [] wit_b = Some (st, rets) /\
-    no_ext wit_b = true /\ writes_aligned wit_b = true /\ no_blank_b (written_of wit_b) = true /\
-    has_drop (rf_hist st) = false /\ secs_distinct (rf_hist st) = false /\
-    (length (rf_hist st) = 2 /\ length (rf_rot st) = 1)%nat /\
-    files_lines st <> lines_of (written_of wit_b).
-Proof. exact wit_b_result. Qed.
-
-(* (c) the destination cannot be opened: the first Send blocks, whatever follows *)
+(* ---- the recorded finding: the destination cannot be opened => the first Send blocks ---- *)
 Theorem C07_send_blocks_refuted : forall max s init es line s',
   exists w, wl_run (wl_new max false s init) (ESend s' line :: es) = Some w /\ wl_blocked w = true.
 Proof. exact wl_unopenable_blocks. Qed.
 
-Theorem C07_full_refuted : ~ C07_full.
-Proof. exact full_refuted. Qed.
-
 Theorem C07_full_send_refuted : ~ full_send.
 Proof. exact full_send_refuted. Qed.
 
-(* non-vacuity of C07_outside_findings: 15 lines then (one second later) 10 lines of 100 bytes into a
-   1024-byte file: two rotations, both at a newline, nothing lost *)
-Example C07_nonvacuous :
-  let b1 := concat (map (fun i => mkline (97 + N.of_nat i) 97) (seq 0 15)) in
-  let b2 := concat (map (fun i => mkline (65 + N.of_nat i) 97) (seq 0 10)) in
-  let ops := [OWrite (fun _ => 0%N) b1; OWrite (fun _ => 1%N) b2] in
-  exists st rets, run (rf_open 1024 0 []) [] ops = Some (st, rets) /\
-    no_ext ops = true /\ aligned_b [] = true /\ writes_aligned ops = true /\
-    no_blank_b ([] ++ written_of ops) = true /\
-    has_drop (rf_hist st) = false /\ secs_distinct (rf_hist st) = true /\
-    length (rf_rot st) = 2%nat /\ length (files_lines st) = 25%nat.
-Proof. eexists. eexists. split; [vm_compute; reflexivity|]. repeat split; vm_compute; reflexivity. Qed.
+Theorem C07_full_refuted : ~ C07_full.
+Proof. exact full_refuted. Qed.
+
+(* non-vacuity, on the inputs on which the code used to fail (max 1024):
+   a 1000-byte line then a 100-byte line (no newline in the window, file not empty);
+   a 300-byte line then a 1030-byte line (larger than a file) then a 100-byte line;
+   25 lines of 100 bytes in one Write with one clock reading (two rotations in one second) *)
+
+Example C07_nonvacuous_no_newline_in_window :
+  let ops := [OWrite clk0 (mkline 97 997); OWrite clk0 (mkline 98 97)] in
+  match run (rf_open 1024 0 []) [] ops with
+  | Some (st, _) => hyps_ok ops && has_nowin (rf_hist st) && names_are st [(0, 0)%N]
+                    && beq (rf_cur st) (mkline 98 97) && lines_match st ops
+                    && (length (files_lines st) =? 2)%nat
+  | None => false
+  end = true.
+Proof. vm_compute. reflexivity. Qed.
+
+Example C07_nonvacuous_line_larger_than_file :
+  let ops := [OWrite clk0 (mkline 97 297); OWrite clk0 (mkline 98 1027); OWrite clk0 (mkline 99 97)] in
+  match run (rf_open 1024 0 []) [] ops with
+  | Some (st, _) => hyps_ok ops && has_nowin (rf_hist st) && names_are st [(0, 0); (0, 1)]%N
+                    && list_eqb Z.eqb (map (fun x => zlen (snd x)) (rf_rot st)) [300; 1029]
+                    && beq (rf_cur st) (mkline 99 97) && lines_match st ops
+                    && (length (files_lines st) =? 3)%nat
+  | None => false
+  end = true.
+Proof. vm_compute. reflexivity. Qed.
+
+Example C07_nonvacuous_same_second :
+  let ops := [OWrite clk0 (concat (map (fun i => mkline (97 + N.of_nat i) 97) (seq 0 25)))] in
+  match run (rf_open 1024 0 []) [] ops with
+  | Some (st, _) => hyps_ok ops && has_samesec (rf_hist st) && names_are st [(0, 0); (0, 1)]%N
+                    && lines_match st ops && (length (files_lines st) =? 25)%nat
+  | None => false
+  end = true.
+Proof. vm_compute. reflexivity. Qed.
 
 Print Assumptions C07_write_total.
 Print Assumptions C07_history_total.
 Print Assumptions C07_size_bound.
 Print Assumptions C07_write_accounts.
 Print Assumptions C07_bytes_accounted.
-Print Assumptions C07_rotated_never_replaced.
-Print Assumptions C07_outside_findings.
+Print Assumptions C07_rotated_name_is_fresh.
+Print Assumptions C07_lines_kept_all_histories.
+Print Assumptions C07_lines_kept.
 Print Assumptions C07_scan_is_index_loop.
 Print Assumptions C07_send_returns_when_openable.
-Print Assumptions C07_first_byte_dropped_refuted.
-Print Assumptions C07_overwrite_refuted.
 Print Assumptions C07_send_blocks_refuted.
-Print Assumptions C07_full_refuted.
 Print Assumptions C07_full_send_refuted.
+Print Assumptions C07_full_refuted.
